@@ -87,6 +87,8 @@ func checkC03(c *Ctx) Meta {
 	c.Rule("C03-AUTH", "every secret-revealing or mutating wallet operation is dominated by a successful check of the caller's passphrase against the current credential: unlock, export, delete, private/public passphrase change, the passphrase of an imported file, and the same-passphrase gate of new and imported keystores", 10)
 	c.Rule("C03-CURRENT", "the credential compared against (salted hash, scrypt parameters) is written only by unlock, passphrase change, load and the eraser; the unlocked flags are raised only by updatePrivKeys and Unlock", 3)
 	c.Rule("C03-ERASE", "every private-hierarchy field that any function fills is zeroed (and dropped) by clearPrivKeys; Lock erases every keystore and clears the unlocked flag", 7)
+	c.Rule("C03-LOCKWIPE", "Lock wipes whatever the manager's unlocked flag says: no clearPrivKeys call of Lock is control-dependent on a test of the flag (the flag is set only by a fully successful Unlock; a partly failed one leaves unlocked keystores behind a false flag, and Lock is their only cleanup)", 1)
+	checkLockWipesUnconditionally(c, "C03-LOCKWIPE")
 	c.Rule("C03-DERIVED", "a key-decrypting key derived from the private passphrase does not survive an operation that leaves the wallet locked: every derive is followed, on all paths to the operation's return, by unlocking or by Zero(); the derived key is shared by reference, never copied out of the object that is zeroed", 4)
 	c.Rule("C03-SCRATCH", "every scratch copy of a private-passphrase-derived key (unmarshalMasterPrivKey target, secretKeyGen result that becomes the stored private master key) is zeroed on every path from its derivation to the function's return, unless it is the key handed to the keystores by ChangePrivPassphrase", 5)
 	c.Rule("C03-ATOMIC", "the private passphrase governs all keystores: ChangePrivPassphrase re-encrypts every keystore inside one transaction, Unlock checks every keystore, and a keystore added to an unlocked manager is unlocked with it", 4)
